@@ -167,20 +167,23 @@ def parseVinfo (fv : FVals) (today : Nat × Nat × Nat) : Except PErr VInfo := d
          patch := intFieldOr fv "patch" 0, bid := bid, tag := tag, pytag := pytag1,
          num := intFieldOr fv "num" 0, inc0 := intFieldOr fv "inc0" 0, inc1 := intFieldOr fv "inc1" 1 }
 
-/-- `parse_version_info(version_str, raw_pattern)`: the first match must consume the whole
-    string; an impossible calendar date is a PatternError (v2version.py after the C09 repair) -/
+/-- the part of `parse_version_info` after the pattern is compiled: the first match must consume
+    the whole string; an impossible calendar date is a PatternError (v2version.py after the C09 repair) -/
+def parseWithRe (r : Re) (versionStr : Str) (today : Nat × Nat × Nat) : Except PErr VInfo :=
+  match reMatch r versionStr with
+  | none => .error .pattern
+  | some m =>
+    if m.stop < versionStr.length then .error .pattern
+    else match parseVinfo (groupdict r m) today with
+      | .error .valueError => .error .pattern
+      | .error .overflow => .error .pattern
+      | x => x
+
+/-- `parse_version_info(version_str, raw_pattern)` -/
 def parseVersionInfo (versionStr rawPattern : Str) (today : Nat × Nat × Nat) : Except PErr VInfo :=
   match compileRe (normalizePattern rawPattern rawPattern) with
   | none => .error .unsupported
-  | some r =>
-    match reMatch r versionStr with
-    | none => .error .pattern
-    | some m =>
-      if m.stop < versionStr.length then .error .pattern
-      else match parseVinfo (groupdict r m) today with
-        | .error .valueError => .error .pattern
-        | .error .overflow => .error .pattern
-        | x => x
+  | some r => parseWithRe r versionStr today
 
 /-- `is_valid`: only PatternError is caught -/
 def isValid (versionStr rawPattern : Str) (today : Nat × Nat × Nat) : Except PErr Bool :=
